@@ -32,6 +32,7 @@ type c09State struct {
 }
 
 type c09Pending struct {
+	answerer int
 	node  int
 	peer  netip.Addr
 	index uint32
@@ -104,7 +105,7 @@ func (c *c09State) preDeliver(rt *rapid.T, w *nsWorld, h *nsHist, p *nsPacket, f
 			lists = true
 		}
 	}
-	c.pendingHit = &c09Pending{node: xi, peer: peer, index: hd.RemoteIndex, from: from, wrong: !lists}
+	c.pendingHit = &c09Pending{answerer: answerer, node: xi, peer: peer, index: hd.RemoteIndex, from: from, wrong: !lists}
 }
 
 // forgive clears the bad addresses for every peer a node now holds a tunnel with (a completed
@@ -142,6 +143,11 @@ func (c *c09State) postDeliver(rt *rapid.T, w *nsWorld, h *nsHist, p *nsPacket, 
 	hm.RUnlock()
 	if t != nil {
 		rt.Fatalf("node %s started a handshake for %v, a host certified only for %v answered from %v, and the initiator installed the tunnel (index %d)", x.name, ph.peer, t.vpnAddrs, ph.from, ph.index)
+	}
+	if !w.accepts(ph.node, ph.answerer) {
+		// the initiator cannot tell who answered when it does not even accept the certificate (untrusted,
+		// expired, blocklisted): the handshake just fails, nothing is learnt about the address
+		return
 	}
 	c.wrongHosts++
 	if c.bad == nil {
@@ -329,6 +335,6 @@ func TestC09_History(t *testing.T) {
 func TestC05_NetHistory(t *testing.T) {
 	nsSetT(t)
 	vk.Check(t, 600, func(rt *rapid.T) {
-		c09Run(rt, "C05", []string{"tun", "tun", "tun", "deliver", "deliver", "flush", "flush", "drop", "dup", "replay", "replay", "mutate", "mutate", "mutate", "advance", "close", "rehandshake"})
+		c09Run(rt, "C05", []string{"tun", "tun", "tun", "deliver", "deliver", "deliver", "flush", "flush", "drop", "dup", "replay", "replay", "mutate", "mutate", "mutate", "advance", "close", "rehandshake", "blocklistReload", "blocklistReload"})
 	})
 }
